@@ -67,3 +67,20 @@ def note_lines(tick, combo, flags=(), sustain=0, order="asc"):
 
 def lanes_vector(combo):
     return [int(i in combo) for i in range(5)]
+
+
+# text that a normalisation, case folding or width folding would change (NFC/NFD/NFKC, lower/upper/casefold);
+# a parser that stores values verbatim keeps every one of them
+UNICODE_TRAPS = (
+    "cafe\u0301",  # e + combining acute (NFC composes)
+    "caf\u00e9",  # precomposed (NFD decomposes)
+    "\u1112\u1161\u11ab",  # Hangul jamo (NFC composes to one syllable)
+    "\ud55c",  # the syllable (NFD decomposes)
+    "\u212bngstr\u00f6m \u2126",  # ANGSTROM SIGN, OHM SIGN (singletons under NFC)
+    "\uf900",  # CJK compatibility ideograph
+    "\ufb01n",  # fi ligature (NFKC)
+    "\u2460\u00b2",  # circled one, superscript two (NFKC)
+    "\uff46\uff55\uff4c\uff4c",  # fullwidth letters
+    "I\u0307 \u0130 \u00df \u1e9e \u01c5",  # case-folding traps
+    "\u0041\u030a\u0323",  # combining marks in non-canonical order
+)
